@@ -11,8 +11,14 @@ CHECKS = {
   "text": "Decides on every CFG path of every analysed @memoize wrapper that a cache miss is followed by an insert under the lookup key before any normal return, that nothing else runs before the lookup, that the hit path only clones, and that nothing else touches or evicts the cache field. Sound for all inputs of the analysed wrappers (27 test grammars, bootstrap parser, macro test; corpus in thorough); the wrapper template is one per rule kind x directive set.",
   "note": TRUST + "I-level verdict: covers the analysed generated instances; generalises to all grammars only as far as the wrapper template is compositional.",
  },
+ "C19": {
+  "category": "other",
+  "technique": "dominance/post-dominance pairing rule over generated rule functions + effect/type rules on tracer",
+  "text": "For every generated rule function (all inputs, all paths): exactly one trace entry dominates and exactly one trace exit post-dominates all work and every normal return, neither in a loop, no trace entry/exit anywhere else in generated code, and the traced value is the returned value. Runtime tracer counters move only +c in entry and -c in exit, so with the pairing the counter cannot underflow. Non-interference is decided by types: tracer methods return (), take parse data by shared reference, parse data has no interior mutability and global.tracer is only ever a method receiver.",
+  "note": TRUST + "I-level for pairing (259 wrappers on the pinned tree, floor enforced); R-level for the counter and the type argument. User-supplied ParseTracer implementations are outside.",
+ },
 }
 
 _PENDING = "check not built yet in this round (design in DESIGN.md §3); no verdict is claimed until it is"
 NOT_APPLICABLE = {pid: _PENDING for pid in
-  ["C01","C02","C03","C04","C05","C07","C08","C09","C10","C11","C12","C13","C14","C15","C16","C17","C18","C19","C20"]}
+  ["C01","C02","C03","C04","C05","C07","C08","C09","C10","C11","C12","C13","C14","C15","C16","C17","C18","C20"]}
